@@ -131,3 +131,46 @@ def r_class_attr_cache(ck: Checker, rule: str, modnames: tuple[str, ...]) -> Non
                              "computed for its base class (attribute lookup follows the MRO) and never computes its own")
                 return
     ck.holds(rule, ("src/pyoak", ", ".join(modnames)), None, "no per-class cache is kept as an inheritable class attribute", functions=n)
+
+
+def r_fresh_worklist(ck: Checker, rule: str, funcs: list[Func]) -> None:
+    """The containers a traversal works with are created by the call that uses them: a container taken from module-level state
+    (a pool, a cache) may still hold what an abandoned earlier traversal left in it."""
+    for f in funcs:
+        fn = f.raw or f.node
+        what = f"{f.qualname}: every container the traversal works with is created inside the call"
+        globals_ = {st.targets[0].id for st in f.mod.tree.body if isinstance(st, ast.Assign) and len(st.targets) == 1 and isinstance(st.targets[0], ast.Name)} | \
+            {st.target.id for st in f.mod.tree.body if isinstance(st, ast.AnnAssign) and isinstance(st.target, ast.Name)}
+        bad = None
+        for st in ast.walk(fn):
+            if isinstance(st, ast.Assign) and len(st.targets) == 1 and isinstance(st.targets[0], ast.Name):
+                for c in ast.walk(st.value):
+                    if isinstance(c, ast.Call) and isinstance(c.func, ast.Attribute) and c.func.attr in ("pop", "popleft", "get", "setdefault") and isinstance(c.func.value, ast.Name) \
+                            and c.func.value.id in globals_ and c.func.value.id.isupper() is not None:
+                        tgt = st.targets[0].id
+                        used_as_container = any(isinstance(x, ast.Call) and isinstance(x.func, ast.Attribute) and norm(x.func.value) == tgt
+                                                and x.func.attr in ("append", "appendleft", "extend", "extendleft", "pop", "popleft") for x in ast.walk(fn))
+                        if used_as_container:
+                            bad = (st, f"{f.qualname}: the container {tgt} is taken from the module-level {c.func.value.id} ({norm(c)[:40]}): what an abandoned earlier "
+                                   "traversal left in it is yielded by the next one")
+        if bad:
+            ck.violation(rule, f, bad[0], what, positive=True, construct=bad[1])
+        else:
+            ck.holds(rule, f, f.node, what)
+
+
+def r_config_readonly(ck: Checker, rule: str, names: tuple[str, ...]) -> None:
+    """The library reads its configuration switches, it never writes them (a switch flipped around a call stays flipped when the call raises)."""
+    what = f"no library function assigns config.{'/'.join(names)}"
+    for m in ck.repo.nonlegacy():
+        for fn in [x for x in ast.walk(m.tree) if isinstance(x, ast.FunctionDef)]:
+            for x in ast.walk(fn):
+                if isinstance(x, ast.Attribute) and isinstance(x.ctx, ast.Store) and x.attr in names and norm(x.value).endswith("config"):
+                    ck.violation(rule, (m.rel, fn.name), x, what, positive=True,
+                                 construct=f"{fn.name}: assigns {norm(x)} (process-wide): validation is switched for every other caller, and stays switched if the call in between raises")
+                    return
+                if isinstance(x, ast.Call) and dotted(x.func) == "setattr" and len(x.args) == 3 and norm(x.args[0]).endswith("config") and isinstance(x.args[1], ast.Constant) \
+                        and x.args[1].value in names:
+                    ck.violation(rule, (m.rel, fn.name), x, what, positive=True, construct=f"{fn.name}: {norm(x)[:50]}")
+                    return
+    ck.holds(rule, ("src/pyoak", "*"), None, what)
